@@ -216,18 +216,22 @@ def synth_case(rng):
         hist.append((t, rng.randrange(ns)))
         t = t + F(rng.choice([0, 1, 1, 2, 3, 5, 8]), den)
     ts = [x for x, _ in hist]
-    r = rng.random()
     pick = lambda: rng.choice(ts) + F(rng.choice([-3, -1, 0, 0, 1, 2, 7]), den * rng.choice([1, 2]))
-    a = max(F(0), pick()) if r < 0.85 else pick()
+    a = max(F(0), pick())
     r2 = rng.random()
-    if r2 < 0.15:
+    if r2 < 0.12:
         b = None
-    elif r2 < 0.3:
-        b = rng.choice(ts)                      # a history date as window end (F-17b)
-    elif r2 < 0.4:
-        b = ts[-1] + F(rng.randint(1, 9), den)
+    elif r2 < 0.24:
+        later = [t for t in ts if t > a]
+        b = rng.choice(later) if later else ts[-1]          # a history date as window end (F-17b)
+    elif r2 < 0.34:
+        b = max(a, ts[-1]) + F(rng.randint(1, 9), den)
+    elif r2 < 0.92:
+        b = a + F(rng.choice([1, 1, 2, 3, 5, 9, 14]), den * rng.choice([1, 2, 3]))
     else:
-        b = pick()
+        b = pick()                                          # possibly <= a: ValueError
+    if rng.random() < 0.04:
+        a = pick()                                          # possibly negative: ValueError
     if rng.random() < 0.06 and len(hist) > 2:   # unsorted history: differential only
         i = rng.randrange(len(hist) - 1)
         hist[i], hist[i + 1] = hist[i + 1], hist[i]
@@ -253,7 +257,7 @@ class C17(Prop):
                          ('prio_reroute', 14), ('sched_reroute', 14), ('sched', 21), ('sched_block', 28), ('schedpre', 21),
                          ('slotted', 21), ('dyn', 35), ('ps', 14), ('deadlock', 28), ('all', 42),
                          ('preempt_block', 14), ('schedpre_block', 14)]}
-    thorough_mult = 25
+    thorough_mult = 15
     rule = ('one case = one observed run with one of the seven built-in trackers (tracker = job index mod 7, so every region sees every '
             'tracker), or one call of state_probabilities on a synthetic / recorded Fraction history compared with the extracted Gallina '
             'model and with an independent exact computation of the time shares; non-trivial run = history with >= 10 entries and, for '
@@ -274,7 +278,12 @@ class C17(Prop):
         js = super().jobs(tier, seed)
         for i, j in enumerate(js):
             j['tix'] = i
-        m = 1 if tier == 'quick' else 25
+        # the blocking trackers need several customers blocked at once (same origin and destination for MatrixBlocking's
+        # cell order): extra runs of the blocking-heavy regions with MatrixBlocking (2 of 3) and NaiveBlocking (1 of 3)
+        for region, cnt in (('deadlock', 45), ('block', 30), ('sched_block', 15)):
+            for i in range(cnt * (1 if tier == 'quick' else self.thorough_mult)):
+                js.append({'region': region, 'gseed': seed * 100003 + 50000 + i, 'size': 'quick', 'tix': 6 if i % 3 else 5})
+        m = 1 if tier == 'quick' else 15
         for i in range(260 * m):
             js.append({'custom': 'sp_synth', 'dseed': seed * 7919 + i})
         for i in range(28 * m):
@@ -326,7 +335,20 @@ class C17(Prop):
                 'unblockings': sum(1 for f in tr.frames for e in f['cev'] if e[0] == 'Release' and e[5]),
                 'class_changes': sum(1 for f in tr.frames for e in f['cev']
                                      if (e[0] == 'ClassChange' and e[3] != e[4]) or e[0] == 'ClassChangeW'),
-                'runs_' + tracker_name(tr.cfg): 1}
+                'runs_' + tracker_name(tr.cfg): 1,
+                'matrix_unblock_from_cell_of_2': self.cell2_unblocks(tr)}
+
+    def cell2_unblocks(self, tr):
+        """MatrixBlocking: unblockings out of a cell (origin, destination) that held >= 2 customers"""
+        if tracker_name(tr.cfg) != 'MatrixBlocking':
+            return 0
+        n = 0
+        prev = tr.init
+        for f in tr.frames:
+            if any(e[0] == 'Release' and e[5] for e in f['cev']) and any(len(c) >= 2 for row in prev['tracker'][0] for c in row):
+                n += 1
+            prev = f['snap']
+        return n
 
     def explain(self, tr, v):
         if v[0] != 'R':
